@@ -60,7 +60,7 @@ func (c17) Runs(t Tier) int {
 }
 func (c17) RecordWidths() map[string]int { return map[string]int{"ops": 3} }
 func (c17) RequiredProbes() []string {
-	return []string{"dir-cold", "dir-warm", "file-node", "plain-dir-node", "linksystem-with-node-reifier", "two-tasks-parked-on-same-shard-cold", "length-concurrent-with-lookup", "iteration-concurrent-with-lookup", "readers-interleaved", "tasks>=4"}
+	return []string{"dir-cold", "dir-warm", "file-node", "plain-dir-node", "linksystem-with-node-reifier", "two-tasks-parked-on-same-shard-cold", "length-concurrent-with-lookup", "iteration-concurrent-with-lookup", "readers-interleaved", "tasks>=4", "concurrent-callers-with-unavailable-block"}
 }
 
 type c17Scenario struct {
@@ -201,7 +201,7 @@ func (c17) Run(ts *tape.Set, tier Tier) *Result {
 	var root cid.Cid
 	var names []string
 	if isFile {
-		spec := gen.DrawFileSpec(shape, gen.FileOpts{MaxSize: 3 << 10, AllowOdd: true, MultiBlock: true})
+		spec := gen.DrawFileSpec(shape, gen.FileOpts{MaxSize: 3 << 10, AllowOdd: true, AllowNoSizes: true, MultiBlock: true})
 		r, _, err := gen.WriteFile(st, spec)
 		if err != nil {
 			res.Skipped, res.SkipReason = true, err.Error()
@@ -316,6 +316,31 @@ func (c17) Run(ts *tape.Set, tier Tier) *Result {
 		sc.Tasks = append(sc.Tasks, ss)
 	}
 
+	// ---- optionally one block of the entity is persistently unavailable, in
+	// the concurrent run and in the sequential reference alike (a fixed error
+	// value, so that results are comparable): concurrency must not change what
+	// a failing load does to each caller
+	var faulted cid.Cid
+	if faultPick := shape.Intn(4); faultPick == 3 {
+		info, order := buildInfo(st, root)
+		_ = info
+		if len(order) > 1 {
+			faulted = order[1+shape.Intn(len(order)-1)]
+			res.probe("concurrent-callers-with-unavailable-block")
+		}
+	} else {
+		shape.Skip(1)
+	}
+	errUnavailable := fmt.Errorf("block unavailable (injected, fixed text)")
+	if faulted.Defined() {
+		st.ReadPolicy = func(_ int, c cid.Cid) *store.ReadFault {
+			if c.Equals(faulted) {
+				return &store.ReadFault{Kind: store.EIOOpen, Err: errUnavailable}
+			}
+			return nil
+		}
+	}
+
 	// ---- the concurrent run
 	blocks := st.Snapshot()
 	schedTape := ts.T("sched")
@@ -329,6 +354,9 @@ func (c17) Run(ts *tape.Set, tier Tier) *Result {
 		c17NoteLoad(sch, loadsInFlight, c, &sameShardCold)
 		sch.Yield()
 		c17NoteLoad(sch, loadsInFlight, cid.Undef, nil)
+		if faulted.Defined() && c.Equals(faulted) {
+			return nil, errUnavailable
+		}
 		data, ok := blocks[c.KeyString()]
 		if !ok {
 			return nil, fmt.Errorf("block %s not found", c)
@@ -373,6 +401,24 @@ func (c17) Run(ts *tape.Set, tier Tier) *Result {
 	mark := raceLogMark()
 	panics := sch.Run()
 	res.Events = sch.Steps
+	if sch.BlockedEvents > 0 {
+		res.probeN("task-blocked-inside-library", sch.BlockedEvents)
+	}
+	if sch.Deadlocked {
+		// every remaining task waits inside the library for something that
+		// will never happen (their goroutines are left behind; nothing they
+		// wrote is read)
+		var tb strings.Builder
+		for i, id := range sch.Trace {
+			if i >= 80 {
+				break
+			}
+			fmt.Fprintf(&tb, "%d", id)
+		}
+		sc.Trace = tb.String()
+		res.Violation = &Violation{Class: "c17/deadlock", Msg: fmt.Sprintf("%d goroutines using one %s node: every unfinished task is blocked inside the library (schedule %s)", nTasks, sc.Node, sc.Trace)}
+		return res
+	}
 
 	// interleaving statistics from the trace
 	interleaved := false
